@@ -103,18 +103,37 @@ func Solve(o *Obligation, cfg *SolverCfg, idx int) {
 		}
 		var vars []variant
 		renderMu.Lock()
+		neg := negateGoal(skolemizeGoal(o.Goal))
 		var qf []*Term
 		nq := 0
-		for _, h := range o.Hyps {
+		var quants []*Term
+		negParts := splitConj([]*Term{neg})
+		var negQF []*Term
+		for _, h := range negParts {
+			if hasQuantifier(h) {
+				quants = append(quants, h)
+				nq++
+			} else {
+				negQF = append(negQF, h)
+			}
+		}
+		negGround := And(negQF...)
+		for _, h := range splitConj(o.Hyps) {
 			if hasQuantifier(h) {
 				nq++
+				quants = append(quants, h)
 			} else {
 				qf = append(qf, h)
 			}
 		}
-		neg := Not(o.Goal)
+		// replace dropped universally quantified hypotheses by their instances at the ground terms
+		// that match their triggers (manual E-matching; instances are consequences)
+		if nq > 0 {
+			ground := append(append([]*Term{}, qf...), negGround)
+			qf = append(qf, instantiateForalls(quants, ground)...)
+		}
 		allH := append(append([]*Term{}, o.Hyps...), neg)
-		qfH := append(append([]*Term{}, qf...), neg)
+		qfH := append(append([]*Term{}, qf...), negGround)
 		if nq > 0 {
 			if abs, n := abstractNonlinear(qfH); n > 0 {
 				vars = append(vars, variant{"qf+nl-abstracted", (&Script{Asserts: abs, RecDefs: o.Recs}).Render()})
@@ -364,4 +383,235 @@ func hasQuantifier(t *Term) bool {
 		}
 	})
 	return q
+}
+
+// instantiateForalls returns ground instances of the universally quantified hypotheses
+// (positions: top-level forall, possibly under implications/conjunctions) obtained by matching
+// trigger terms (select / uninterpreted applications containing the bound variable) against
+// ground terms of the context.
+func instantiateForalls(hyps []*Term, ground []*Term) []*Term {
+	// index ground select/app terms by head
+	type gterm struct{ t *Term }
+	byHead := map[string][]*Term{}
+	headOf := func(t *Term) string {
+		switch t.Op {
+		case "select":
+			return fmt.Sprintf("select:%d", t.Args[0].id)
+		case "app":
+			return "app:" + t.Name
+		}
+		return ""
+	}
+	bound := map[*Term]bool{}
+	collect(ground, func(t *Term) {
+		for _, b := range t.Bnd {
+			bound[b] = true
+		}
+	})
+	collect(ground, func(t *Term) {
+		if h := headOf(t); h != "" {
+			dep := false
+			collect([]*Term{t}, func(x *Term) {
+				if bound[x] {
+					dep = true
+				}
+			})
+			if !dep {
+				byHead[h] = append(byHead[h], t)
+			}
+		}
+	})
+	var out []*Term
+	seen := map[*Term]bool{}
+	depth := 0
+	var visit func(h *Term, guard []*Term)
+	visit = func(h *Term, guard []*Term) {
+		if depth > 0 && !hasQuantifier(h) {
+			// quantifier-free part of an instance
+			full := Implies(And(guard...), h)
+			if !seen[full] && !full.IsTrue() {
+				seen[full] = true
+				out = append(out, full)
+			}
+			return
+		}
+		switch h.Op {
+		case "and":
+			for _, a := range h.Args {
+				visit(a, guard)
+			}
+		case "=>":
+			visit(h.Args[1], append(append([]*Term{}, guard...), h.Args[0]))
+		case "forall":
+			if len(h.Bnd) != 1 {
+				return
+			}
+			bv := h.Bnd[0]
+			body := h.Args[0]
+			// triggers
+			var trig []*Term
+			collect([]*Term{body}, func(t *Term) {
+				if headOf(t) != "" && dependsOn(t, bv) {
+					// minimal: no proper sub-term that is itself a trigger depending on bv, except inside index
+					trig = append(trig, t)
+				}
+			})
+			cands := map[*Term]bool{}
+			for _, tr := range trig {
+				hd := headOf(tr)
+				if tr.Op == "select" && dependsOn(tr.Args[0], bv) {
+					continue
+				}
+				for _, g := range byHead[hd] {
+					if v := matchBind(tr, g, bv); v != nil {
+						cands[v] = true
+					}
+				}
+			}
+			n := 0
+			for v := range cands {
+				if n > 40 {
+					break
+				}
+				n++
+				inst := Subst(body, map[*Term]*Term{bv: v})
+				if hasQuantifier(inst) {
+					// nested quantifier: instantiate the inner one against the same ground terms
+					if depth < 3 {
+						depth++
+						visit(inst, guard)
+						depth--
+					}
+					continue
+				}
+				full := Implies(And(guard...), inst)
+				if !seen[full] && !full.IsTrue() {
+					seen[full] = true
+					out = append(out, full)
+				}
+			}
+		}
+	}
+	for _, h := range hyps {
+		visit(h, nil)
+	}
+	return out
+}
+
+// matchBind matches pattern p (containing bv) against ground term g with the same head and
+// returns the value of bv, or nil.  Only one argument may contain bv, either as bv itself or
+// as a sum bv + rest.
+func matchBind(p, g, bv *Term) *Term {
+	if p.Op != g.Op || p.Name != g.Name || len(p.Args) != len(g.Args) {
+		return nil
+	}
+	var val *Term
+	for i := range p.Args {
+		pa, ga := p.Args[i], g.Args[i]
+		if !dependsOn(pa, bv) {
+			if pa != ga {
+				return nil
+			}
+			continue
+		}
+		if val != nil {
+			return nil
+		}
+		if pa == bv {
+			val = ga
+			continue
+		}
+		if pa.Op == "+" {
+			var rest []*Term
+			cnt := 0
+			for _, a := range pa.Args {
+				if a == bv {
+					cnt++
+				} else if dependsOn(a, bv) {
+					return nil
+				} else {
+					rest = append(rest, a)
+				}
+			}
+			if cnt != 1 {
+				return nil
+			}
+			val = Sub(ga, Add(rest...))
+			continue
+		}
+		return nil
+	}
+	if val != nil && val.Sort != bv.Sort {
+		return nil
+	}
+	return val
+}
+
+var skCtr int
+
+// skolemizeGoal replaces universally quantified variables in positive positions of a goal by
+// fresh constants (proving P(c) for a fresh c proves forall x. P(x)).
+func skolemizeGoal(t *Term) *Term {
+	switch t.Op {
+	case "forall":
+		m := map[*Term]*Term{}
+		for _, b := range t.Bnd {
+			skCtr++
+			m[b] = Sym(fmt.Sprintf("sk!%s!%d", strings.TrimPrefix(b.Name, "$"), skCtr), b.Sort)
+		}
+		return skolemizeGoal(Subst(t.Args[0], m))
+	case "=>":
+		return Implies(t.Args[0], skolemizeGoal(t.Args[1]))
+	case "and":
+		args := make([]*Term, len(t.Args))
+		for i, a := range t.Args {
+			args[i] = skolemizeGoal(a)
+		}
+		return And(args...)
+	}
+	return t
+}
+
+// splitConj splits hypotheses at top-level conjunctions (also under an implication guard).
+func splitConj(hs []*Term) []*Term {
+	var out []*Term
+	var rec func(g []*Term, t *Term)
+	rec = func(g []*Term, t *Term) {
+		switch {
+		case t.Op == "and":
+			for _, a := range t.Args {
+				rec(g, a)
+			}
+		case t.Op == "=>" && t.Args[1].Op == "and":
+			g2 := append(append([]*Term{}, g...), t.Args[0])
+			for _, a := range t.Args[1].Args {
+				rec(g2, a)
+			}
+		default:
+			out = append(out, Implies(And(g...), t))
+		}
+	}
+	for _, h := range hs {
+		rec(nil, h)
+	}
+	return out
+}
+
+// negateGoal pushes the negation of a goal inwards far enough to expose the universally
+// quantified facts it yields: not(G => C) = G and not C; not(exists x. P) = forall x. not P.
+func negateGoal(t *Term) *Term {
+	switch t.Op {
+	case "=>":
+		return And(t.Args[0], negateGoal(t.Args[1]))
+	case "exists":
+		r := Forall(t.Bnd, Not(t.Args[0]))
+		return r
+	case "or":
+		args := make([]*Term, len(t.Args))
+		for i, a := range t.Args {
+			args[i] = negateGoal(a)
+		}
+		return And(args...)
+	}
+	return Not(t)
 }
